@@ -106,16 +106,21 @@ func init() {
 		add := func(s JobScenario) { out = append(out, mk("job", "C09/"+s.Name, s)) }
 		for _, shape := range []string{"none", "count2"} {
 			for _, att := range []int64{1, 2} {
-				if !thorough && shape == "count2" && att == 2 {
-					continue
-				}
 				s := jobBase(fmt.Sprintf("%s-att%d-crash1", shape, att))
 				s.Parallelism, s.MaxAttempts, s.MaxFail = shape, att, int(att)
+				if shape == "none" || att == 1 {
+					s.PodActions = fullPod
+				}
 				s.Budget = mc.Budget{Crashes: 1}
 				add(s)
 				s.Name = fmt.Sprintf("%s-att%d-fault1", shape, att)
 				s.Budget = mc.Budget{Faults: 1}
 				add(s)
+				if shape == "none" {
+					s.Name = fmt.Sprintf("%s-att%d-fault1-crash1", shape, att)
+					s.Budget = mc.Budget{Faults: 1, Crashes: 1}
+					add(s)
+				}
 				if thorough {
 					s.Name = fmt.Sprintf("%s-att%d-fault1-crash1-lag1", shape, att)
 					s.Budget = mc.Budget{Faults: 1, Crashes: 1, Lag: 1}
